@@ -147,9 +147,21 @@ Definition same_except (w : widget) (p p' : sparams (T:=R)) : Prop :=
   (w <> WDp -> p_Dp p' = p_Dp p) /\ (w <> WD50 -> p_D50 p' = p_D50 p) /\
   (w <> WCv -> w <> WRhom -> p_Cv p' = p_Cv p) /\ (w <> WRhos -> p_rhos p' = p_rhos p /\ p_rhoi p' = p_rhoi p).
 
+(* how a later state is obtained from an earlier one: by operations on the selected slurry object, by text changes, by a
+   refresh -- so that any invariant of those steps can be transported along a callback *)
+Inductive reach : vst -> vst -> Prop :=
+| r_refl v : reach v v
+| r_sdo v o : reach v (Sdo v o)
+| r_rdx v f : reach v (fst (Rdx v f))
+| r_text v w s : reach v (with_text v w s)
+| r_usd v : reach v (Usd v)
+| r_upd v : reach v (Upd_slurries v)
+| r_flag v b : reach v (mkV (cur v) (sel v) (pipes v) (tDp v) (tD15 v) (tD50 v) (tD85 v) (tRhos v) (tRhom v) (tCv v) (radio v) (us_units v) b)
+| r_trans a b c : reach a b -> reach b c -> reach a c.
+
 Definition Rel (w : widget) (v v' : vst) : Prop :=
   K v' /\ same_except w (Par v) (Par v') /\ diams (cur v') = diams (cur v) /\ sel v' = sel v /\ pipes v' = pipes v /\
-  us_units v' = us_units v /\ (w <> WRhom -> 1 / 100 <= p_Cv (Par v) -> 1 / 100 <= p_Cv (Par v')).
+  us_units v' = us_units v /\ (w <> WRhom -> 1 / 100 <= p_Cv (Par v) -> 1 / 100 <= p_Cv (Par v')) /\ reach v v'.
 
 Lemma same_except_refl w p : same_except w p p.
 Proof. unfold same_except. repeat split; reflexivity. Qed.
@@ -160,29 +172,29 @@ Ltac se_tac :=
        p_Cv p_rhos p_rhoi fst snd] in *;
   intuition (try congruence; try discriminate).
 
-Ltac rel_split := unfold Rel; refine (conj _ (conj _ (conj _ (conj _ (conj _ (conj _ _)))))).
+Ltac rel_split := unfold Rel; refine (conj _ (conj _ (conj _ (conj _ (conj _ (conj _ (conj _ _))))))).
 
 Lemma rel_refl w v : K v -> Rel w v v.
-Proof. intro H. rel_split; auto using same_except_refl. Qed.
+Proof. intro H. rel_split; auto using same_except_refl, r_refl. Qed.
 
 (* a step that leaves the parameters and the shell alone *)
-Lemma rel_frame w (v v1 v2 : vst) : Rel w v v1 -> shell v2 = shell v1 -> Par v2 = Par v1 -> Rel w v v2.
+Lemma rel_frame w (v v1 v2 : vst) : Rel w v v1 -> shell v2 = shell v1 -> Par v2 = Par v1 -> reach v1 v2 -> Rel w v v2.
 Proof.
-  intros (HK & HS & Hd & Hs & Hp & Hu & Hc) Hsh Hpar. destruct (shell_eq _ _ Hsh) as (E1 & E2 & E3 & E4 & E5).
-  unfold Rel. rewrite Hpar. rel_split; try congruence; try assumption.
+  intros (HK & HS & Hd & Hs & Hp & Hu & Hc & Hre) Hsh Hpar Hr. destruct (shell_eq _ _ Hsh) as (E1 & E2 & E3 & E4 & E5).
+  unfold Rel. rewrite Hpar. rel_split; try congruence; try assumption; [|exact (r_trans _ _ _ Hre Hr)].
   unfold K, Kpl in *. unfold par, slurry in Hpar. rewrite Hpar, E1. exact HK.
 Qed.
 
 Lemma rel_read w (v v1 : vst) o : Rel w v v1 -> (forall p, sp_after p o = p) -> Rel w v (Sdo v1 o).
 Proof.
-  intros H Ho. destruct (sdo_frame v1 o) as (A & B & _). apply (rel_frame w v v1); auto. rewrite B. apply Ho.
+  intros H Ho. destruct (sdo_frame v1 o) as (A & B & _). apply (rel_frame w v v1); auto using r_sdo. rewrite B. apply Ho.
 Qed.
 
 Lemma rel_rdx w (v v1 : vst) f : Rel w v v1 -> Rel w v (fst (Rdx v1 f)).
-Proof. intro H. destruct (rdx_frame v1 f) as (A & B & _). apply (rel_frame w v v1); auto. Qed.
+Proof. intro H. destruct (rdx_frame v1 f) as (A & B & _). apply (rel_frame w v v1); auto using r_rdx. Qed.
 
 Lemma rel_text w (v v1 : vst) w' s : Rel w v v1 -> Rel w v (with_text v1 w' s).
-Proof. intro H. destruct (shell_with_text v1 w' s) as (A & B & _). apply (rel_frame w v v1); auto. Qed.
+Proof. intro H. destruct (shell_with_text v1 w' s) as (A & B & _). apply (rel_frame w v v1); auto using r_text. Qed.
 
 Lemma K_in v : K v -> memb RN (p_Dp (Par v)) (diams (cur v)) = true.
 Proof. intros (_ & H & _). apply memb_in. exact H. Qed.
@@ -202,12 +214,12 @@ Proof.
 Qed.
 
 Lemma rel_usd w (v v1 : vst) : Rel w v v1 -> Rel w v (Usd v1).
-Proof. intro H. destruct (usd_frame v1) as (A & B); [apply H|]. apply (rel_frame w v v1); auto. Qed.
+Proof. intro H. destruct (usd_frame v1) as (A & B); [apply H|]. apply (rel_frame w v v1); auto using r_usd. Qed.
 
 Lemma rel_trans w (v v1 v2 : vst) : Rel w v v1 -> Rel w v1 v2 -> Rel w v v2.
 Proof.
-  intros (HK & HS & Hd & Hs & Hp & Hu & Hc) (HK' & HS' & Hd' & Hs' & Hp' & Hu' & Hc').
-  rel_split; try congruence; try assumption.
+  intros (HK & HS & Hd & Hs & Hp & Hu & Hc & Hre) (HK' & HS' & Hd' & Hs' & Hp' & Hu' & Hc' & Hre').
+  rel_split; try congruence; try assumption; [| |exact (r_trans _ _ _ Hre Hre')].
   - destruct HS as (a1 & a2 & a3 & a4 & a5 & a6 & a7 & a8). destruct HS' as (b1 & b2 & b3 & b4 & b5 & b6 & b7 & b8).
     unfold same_except. repeat split; try congruence.
     + intro n. rewrite (b5 n). auto.
@@ -294,30 +306,30 @@ Lemma rel_set w (v v1 : vst) o : Rel w v v1 -> Bd (sp_after (Par v1) o) -> p_Dp 
   same_except w (Par v) (sp_after (Par v1) o) ->
   (w <> WRhom -> 1 / 100 <= p_Cv (Par v) -> 1 / 100 <= p_Cv (sp_after (Par v1) o)) -> Rel w v (Sdo v1 o).
 Proof.
-  intros (HK & HS & Hd & Hs & Hp & Hu & Hc) HB HD HSE HC.
+  intros (HK & HS & Hd & Hs & Hp & Hu & Hc & Hre) HB HD HSE HC.
   destruct (sdo_frame v1 o) as (A & B & _). destruct (shell_eq _ _ A) as (E1 & E2 & E3 & E4 & E5).
-  rel_split; [| rewrite B; exact HSE | congruence | congruence | congruence | congruence | rewrite B; exact HC].
+  rel_split; [| rewrite B; exact HSE | congruence | congruence | congruence | congruence | rewrite B; exact HC | exact (r_trans _ _ _ Hre (r_sdo v1 o))].
   unfold K, Kpl. fold (slurry (Sdo v1 o)). fold (Par (Sdo v1 o)). rewrite B, E1.
   destruct HK as (_ & HI & HF). split; [exact HB|]. split; [|exact HF]. rewrite HD. exact HI.
 Qed.
 
 Lemma rel_dp (v v1 : vst) y : Rel WDp v v1 -> 25 <= y * 1000 <= 1500 -> Rel WDp v (Upd_slurries (Sdo v1 (SetDp y))).
 Proof.
-  intros (HK & HS & Hd & Hs & Hp & Hu & Hc) Hy.
+  intros (HK & HS & Hd & Hs & Hp & Hu & Hc & Hre) Hy.
   set (v2 := Sdo v1 (SetDp y)).
   destruct (sdo_frame v1 (SetDp y)) as (A & B & _). fold v2 in A, B. destruct (shell_eq _ _ A) as (E1 & E2 & E3 & E4 & E5).
   destruct HK as (HB & HI & HF). destruct HB as (b1 & b2 & b3 & b4).
   assert (NW : forall q, same_except WDp (Par v) (set_Dp (Par v1) q)).
   { intro q. clear - HS. se_tac. }
   destruct (update_slurries_cases v2) as [(M & E)|(M & E)]; rewrite E.
-  - rel_split; [| rewrite B; apply NW | congruence | congruence | congruence | congruence | rewrite B; cbn [sp_after set_Dp p_Cv]; exact Hc].
+  - rel_split; [| rewrite B; apply NW | congruence | congruence | congruence | congruence | rewrite B; cbn [sp_after set_Dp p_Cv]; exact Hc | exact (r_trans _ _ _ Hre (r_sdo v1 (SetDp y)))].
     unfold K, Kpl. fold (slurry v2). fold (Par v2). rewrite E1. apply memb_in in M. split; [|split; assumption].
     rewrite B. cbn [sp_after]. unfold Bd. cbn [set_Dp p_Dp p_rhos p_Cv p_rhol]. fold (slurry v1). fold (Par v1). tauto.
   - set (y' := last_or (p_Dp (Par v2)) (diams (cur v2))).
     destruct (sdo_frame v2 (SetDp y')) as (A' & B' & _). destruct (shell_eq _ _ A') as (F1 & F2 & F3 & F4 & F5).
     assert (IN : In y' (diams (cur v1))).
     { rewrite <- E1. apply last_or_in. rewrite E1. intro Z. rewrite Z in HI. exact HI. }
-    rel_split; [| | congruence | congruence | congruence | congruence | rewrite B', B; cbn [sp_after set_Dp p_Cv]; exact Hc].
+    rel_split; [| | congruence | congruence | congruence | congruence | rewrite B', B; cbn [sp_after set_Dp p_Cv]; exact Hc | exact (r_trans _ _ _ (r_trans _ _ _ Hre (r_sdo v1 (SetDp y))) (r_sdo v2 (SetDp y')))].
     + unfold K, Kpl. fold (slurry (Sdo v2 (SetDp y'))). fold (Par (Sdo v2 (SetDp y'))). rewrite B', F1, E1.
       split; [|split; [exact IN|exact HF]].
       rewrite B. cbn [sp_after]. unfold Bd. cbn [set_Dp p_Dp p_rhos p_Cv p_rhol]. fold (slurry v1). fold (Par v1).
@@ -336,7 +348,7 @@ Lemma callback_rel2 : forall fuel w (v : vst), K v ->
   Rel w v (Callback fuel w v) /\ match fuel with O => True | S _ => exists u, Callback fuel w v = Usd u /\ Rel w v u end.
 Proof.
   induction fuel as [|fuel IH]; intros w v HK.
-  - split; [|exact I]. cbn [Viewer.callback]. rel_split; try reflexivity; [exact HK|apply same_except_refl|tauto].
+  - split; [|exact I]. cbn [Viewer.callback]. rel_split; try reflexivity; [exact HK|apply same_except_refl|tauto|apply r_flag].
   - assert (SV : forall s (v1 : vst), Rel w v v1 -> Rel w v (setv_of fuel w s v1)).
     { intros s v1 H1. unfold setv_of. destruct (String.eqb s (text v1 w)); [exact H1|].
       eapply rel_trans; [apply rel_text; exact H1|]. refine (proj1 (IH _ _ _)).
@@ -369,14 +381,14 @@ Proof.
         -- destruct Rb as (((c1 & c2 & c3 & c4) & _) & _). fold (slurry vb) in c1, c2, c3, c4. fold (Par vb) in c1, c2, c3, c4.
            unfold Bd. cbn [sp_after set_D50 p_Dp p_rhos p_Cv p_rhol]. tauto.
         -- destruct Rb as (_ & HS & _). clear - HS. se_tac.
-        -- destruct Rb as (_ & _ & _ & _ & _ & _ & Hc). cbn [sp_after set_D50 p_Cv]. exact Hc.
+        -- destruct Rb as (_ & _ & _ & _ & _ & _ & Hc & _). cbn [sp_after set_D50 p_Cv]. exact Hc.
       * set (v1 := setv_of fuel WD50 _ vb). assert (R1 : Rel WD50 v v1) by (apply SV; exact Rb).
         apply usd_both. apply rel_read; [|reflexivity].
         apply rel_set; [exact R1| | reflexivity | |].
         -- destruct R1 as (((c1 & c2 & c3 & c4) & _) & _). fold (slurry v1) in c1, c2, c3, c4. fold (Par v1) in c1, c2, c3, c4.
            unfold Bd. cbn [sp_after set_D50 p_Dp p_rhos p_Cv p_rhol]. tauto.
         -- destruct R1 as (_ & HS & _). clear - HS. se_tac.
-        -- destruct R1 as (_ & _ & _ & _ & _ & _ & Hc). cbn [sp_after set_D50 p_Cv]. exact Hc.
+        -- destruct R1 as (_ & _ & _ & _ & _ & _ & Hc & _). cbn [sp_after set_D50 p_Cv]. exact Hc.
     + (* D85 *)
       rewrite callback_D85. cbv zeta.
       destruct (Rdx v (f85 RN)) as [v0 d] eqn:E0.
@@ -397,7 +409,7 @@ Proof.
         apply rel_set; [exact R2| | reflexivity | |].
         -- destruct R2 as (((c1 & c2 & c3 & c4) & _) & _). unfold Bd. cbn [sp_after set_rhoi p_Dp p_rhos p_Cv p_rhol]. tauto.
         -- destruct R2 as (_ & HS & _). clear - HS. se_tac.
-        -- destruct R2 as (_ & _ & _ & _ & _ & _ & Hc). cbn [sp_after set_rhoi p_Cv]. exact Hc.
+        -- destruct R2 as (_ & _ & _ & _ & _ & _ & Hc & _). cbn [sp_after set_rhoi p_Cv]. exact Hc.
       * set (v1 := setv_of fuel WRhos _ v). assert (R1 : Rel WRhos v v1) by (apply SV; exact R0).
         apply usd_both.
         assert (R2 : Rel WRhos v (Sdo v1 (SetRhos (p_rhos (Par v))))).
@@ -406,11 +418,11 @@ Proof.
             destruct HK as ((_ & d2 & _) & _). fold (slurry v) in d2. fold (Par v) in d2.
             unfold Bd. cbn [sp_after set_rhos p_Dp p_rhos p_Cv p_rhol]. tauto.
           - destruct R1 as (_ & HS & _). clear - HS. se_tac.
-          - destruct R1 as (_ & _ & _ & _ & _ & _ & Hc). cbn [sp_after set_rhos p_Cv]. exact Hc. }
+          - destruct R1 as (_ & _ & _ & _ & _ & _ & Hc & _). cbn [sp_after set_rhos p_Cv]. exact Hc. }
         apply rel_set; [exact R2| | reflexivity | |].
         -- destruct R2 as (((c1 & c2 & c3 & c4) & _) & _). unfold Bd. cbn [sp_after set_rhoi p_Dp p_rhos p_Cv p_rhol]. tauto.
         -- destruct R2 as (_ & HS & _). clear - HS. se_tac.
-        -- destruct R2 as (_ & _ & _ & _ & _ & _ & Hc). cbn [sp_after set_rhoi p_Cv]. exact Hc.
+        -- destruct R2 as (_ & _ & _ & _ & _ & _ & Hc & _). cbn [sp_after set_rhoi p_Cv]. exact Hc.
     + (* rhom *)
       rewrite callback_Rhom. cbv zeta.
       destruct HK as ((k1 & k2 & k3 & k4) & kI & kF). fold (slurry v) in k1, k2, k3, k4. fold (Par v) in k1, k2, k3, k4.
@@ -497,7 +509,7 @@ Proof. intros (_ & HF) (HK & _ & _ & _ & Hp & _). split; [exact HK|]. rewrite Hp
 
 Lemma rel_CvLo w (v v' : vst) : w <> WRhom -> CvLoAll v -> Rel w v v' -> CvLoAll v'.
 Proof.
-  intros n (H1 & HF) (_ & _ & _ & _ & Hp & _ & Hc). split; [|rewrite Hp; exact HF].
+  intros n (H1 & HF) (_ & _ & _ & _ & Hp & _ & Hc & _). split; [|rewrite Hp; exact HF].
   unfold CvLo. fold (slurry v'). fold (Par v'). apply Hc; [exact n|exact H1].
 Qed.
 
@@ -773,7 +785,7 @@ Proof.
   - exfalso. rewrite B3 in M. destruct (shell_eq _ _ A3) as (E1 & _). rewrite E1 in M. rewrite (K_in v2 K2) in M. discriminate.
 Qed.
 
-Lemma d50_adjust_usd delta (v : vst) : K v -> D50_adjust v delta = v \/ exists u, D50_adjust v delta = Usd u /\ K u.
+Lemma d50_adjust_usd delta (v : vst) : K v -> D50_adjust v delta = v \/ exists u, D50_adjust v delta = Usd u /\ Rel WD50 v u.
 Proof.
   intro HK. pose proof (rel_refl WD50 v HK) as R0. unfold Viewer.d50_adjust.
   match goal with |- context [if ?c then _ else _] => destruct c end; [right|left; reflexivity].
@@ -800,7 +812,7 @@ Proof.
     - destruct (rel_text w v v w s (rel_refl w v HK)) as (HK' & _). exact HK'.
     - rewrite E. apply shown_usd. exact Ku. }
   assert (DA : forall d, shown (D50_adjust v d)).
-  { intro d. destruct (d50_adjust_usd d v HK) as [E|(u & E & Ku)]; rewrite E; [exact HS|apply shown_usd; exact Ku]. }
+  { intro d. destruct (d50_adjust_usd d v HK) as [E|(u & E & (Ku & _))]; rewrite E; [exact HS|apply shown_usd; exact Ku]. }
   destruct e as [w s| | | | | | |b|u|k]; cbn [Viewer.fire]; auto.
   - destruct (Bool.eqb b (radio v)); [exact HS|]. apply shown_usd.
     match goal with |- K (Sdo ?a (SetFluid b)) => set (v0 := a) end.
